@@ -169,21 +169,31 @@ func canonName(n string) string {
 
 // refHeaderBlock parses field lines from pos up to and including the empty
 // line. ok=false means the input ended first.
+//
+// Lines are first unfolded (3.2.4: a line starting with SP/HTAB continues the
+// previous line; obs-fold is only legitimate inside a field-value, so a fold
+// before the colon simply makes the field-name contain whitespace), then each
+// logical line is parsed as field-name ":" OWS field-value OWS.
 func refHeaderBlock(r *refReq, s []byte, pos int) (fields []field, next int, ok bool) {
+	type logical struct {
+		text string
+		fold bool
+	}
+	var lines []logical
 	for {
 		line, nx, term := refLine(s, pos)
 		if term == "eof" {
-			return fields, len(s), false
+			return nil, len(s), false
 		}
 		if term == "lf" {
 			r.note("bare-lf")
 		}
 		pos = nx
 		if len(line) == 0 {
-			return fields, pos, true
+			break
 		}
 		if isOWS(line[0]) {
-			if len(fields) == 0 {
+			if len(lines) == 0 {
 				// RFC 7230 3: whitespace between the start-line and the first
 				// header field: reject, or consume the line without processing.
 				if len(trimOWS(string(line))) == 0 {
@@ -195,18 +205,21 @@ func refHeaderBlock(r *refReq, s []byte, pos int) (fields []field, next int, ok 
 			}
 			// obs-fold (3.2.4): reject or replace by SP.
 			r.note("obs-fold")
-			f := &fields[len(fields)-1]
-			f.Value = trimOWS(f.Value + " " + trimOWS(string(line)))
-			f.Fold = true
+			l := &lines[len(lines)-1]
+			l.text = l.text + " " + trimOWS(string(line))
+			l.fold = true
 			continue
 		}
-		colon := bytes.IndexByte(line, ':')
+		lines = append(lines, logical{text: string(line)})
+	}
+	for _, l := range lines {
+		colon := strings.IndexByte(l.text, ':')
 		if colon < 0 {
 			r.class("no-colon")
 			continue
 		}
-		name := string(line[:colon])
-		value := trimOWS(string(line[colon+1:]))
+		name := l.text[:colon]
+		value := trimOWS(l.text[colon+1:])
 		if len(name) == 0 {
 			r.class("empty-field-name")
 			continue
@@ -226,8 +239,9 @@ func refHeaderBlock(r *refReq, s []byte, pos int) (fields []field, next int, ok 
 				break
 			}
 		}
-		fields = append(fields, field{Name: name, Value: value})
+		fields = append(fields, field{Name: name, Value: value, Fold: l.fold})
 	}
+	return fields, pos, true
 }
 
 // ---------------------------------------------------------------------------
@@ -245,9 +259,13 @@ func isUnicodeSpaceTrimmedChunked(tok string) bool {
 }
 
 func analyzeTE(vals []string) teResult {
-	var names []string
+	type coding struct {
+		name    string
+		invalid bool
+		nonstd  bool
+	}
+	var codings []coding
 	var res teResult
-	invalid, nonstd := false, false
 	for _, v := range vals {
 		for _, el := range strings.Split(v, ",") {
 			el = trimOWS(el)
@@ -259,45 +277,38 @@ func analyzeTE(vals []string) teResult {
 				name = trimOWS(el[:i])
 				res.notes = append(res.notes, "te-params")
 			}
+			c := coding{name: strings.ToLower(name)}
 			if !isToken(name) {
-				invalid = true
-				if isUnicodeSpaceTrimmedChunked(name) {
-					nonstd = true
-				}
+				c.invalid = true
+				c.nonstd = isUnicodeSpaceTrimmedChunked(name)
 			}
-			names = append(names, strings.ToLower(name))
+			codings = append(codings, c)
 		}
 	}
-	if len(names) == 0 {
+	if len(codings) == 0 {
 		res.class = "te-empty"
 		return res
 	}
-	hasIdentity, other := false, false
-	for _, n := range names {
-		if n == "identity" {
-			hasIdentity = true
+	// the first offending coding (in list order) names the class
+	for i, c := range codings {
+		switch {
+		case c.invalid && c.nonstd:
+			res.class = "te-nonstd-ws"
+		case c.invalid:
+			res.class = "te-invalid-token"
+		case c.name == "identity":
+			res.class = "te-identity"
+		case c.name != "chunked" && i == len(codings)-1:
+			res.class = "te-not-last-chunked"
+		case c.name != "chunked":
+			res.class = "te-unsupported"
 		}
-		if n != "chunked" {
-			other = true
+		if res.class != "" {
+			return res
 		}
-	}
-	switch {
-	case invalid && nonstd:
-		res.class = "te-nonstd-ws"
-	case invalid:
-		res.class = "te-invalid-token"
-	case hasIdentity:
-		res.class = "te-identity"
-	case names[len(names)-1] != "chunked":
-		res.class = "te-not-last-chunked"
-	case other:
-		res.class = "te-unsupported"
-	}
-	if res.class != "" {
-		return res
 	}
 	res.chunked = true
-	if len(names) > 1 {
+	if len(codings) > 1 {
 		res.notes = append(res.notes, "te-chunked-twice")
 	}
 	return res
@@ -356,6 +367,11 @@ func analyzeCL(vals []string) clResult {
 		}
 		if !okList {
 			res.class = classifyBadCL(v)
+			if len(nums) > 0 {
+				// valid field line(s) first, a bad one later: the same situation as
+				// differing values (some Content-Length field contradicts the first)
+				res.class = "cl-conflict"
+			}
 			return res
 		}
 		res.notes = append(res.notes, "cl-list")
